@@ -117,6 +117,7 @@ func genDialectProgram(r *prng.R, k int, ntuples int) *Prog {
 		t := ks[r.Intn(len(ks))]
 		name := fmt.Sprintf("g¶_%d", i)
 		g.noCalls = true
+		g.safe = true
 		var e E
 		minLen := 0
 		switch t.K {
@@ -130,6 +131,7 @@ func genDialectProgram(r *prng.R, k int, ntuples int) *Prog {
 			e = g.genExpr(t, 2)
 		}
 		g.noCalls = false
+		g.safe = false
 		if r.Chance(1, 5) && (t.K == KInt || t.K == KBool || t.K == KStr) {
 			top.both("var %s %s\n", name, t.src())
 			zero := map[Kind]string{KInt: "0", KBool: "false", KStr: `""`}[t.K]
@@ -152,7 +154,9 @@ func genDialectProgram(r *prng.R, k int, ntuples int) *Prog {
 		g.noCalls = true
 		g.budget = 3
 		g.inDefer = true // no returns / panics
+		g.safe = true
 		b := g.genBlock(r.Range(1, 3))
+		g.safe = false
 		g.inDefer = false
 		g.noCalls = false
 		initB.add(b)
@@ -310,6 +314,9 @@ func (g *G) genFunc(f *Func, top *sb, hasRecover bool, budget int) {
 	}
 	var s sb
 	s.both("func %s%s(%s)%s {\n", recv, f.Name, strings.Join(ps, ", "), ret)
+	s.pc("", "ck_step()\n")
+	g.selfCalls = 0
+	g.loopNest = 0
 	if f.Rec {
 		s.both("if d <= 0 {\n")
 		old := g.noCalls
